@@ -105,6 +105,7 @@ type Sess struct {
 	gmaps      map[string]gMap      // long-lived generic MapN mappers (C18)
 	gex        [2]*gexState         // long-lived generic Exchange objects (C18)
 	gsingles   map[string]*gSingle  // long-lived generic Map[T] mappers (C18)
+	builders   map[string]*ecs.Builder // long-lived builders, by configuration
 	resMappers map[string][]resAcc // long-lived generic.Resource mappers (C20)
 	Res        *ResModel
 	ResIDs     []ecs.ResID
@@ -223,6 +224,11 @@ func (s *Sess) TranscriptOps() []uint64 { return s.trOps }
 func (s *Sess) filterOf(op *Op) (ecs.Filter, *FSpec) {
 	if op.Slot != nil && op.K != "CacheRegister" {
 		r := s.regs[*op.Slot]
+		if s.step%2 == 0 {
+			// Register returns the CachedFilter by value: a copy of it is as good as the value first returned
+			c := r.cached
+			return &c, r.spec
+		}
 		return &r.cached, r.spec
 	}
 	return op.F.Build(s.IDs, entOf), op.F
@@ -236,6 +242,29 @@ func tgt(op *Op) []ecs.Entity {
 }
 
 func (s *Sess) builder(op *Op) *ecs.Builder {
+	// two of three ops re-use a Builder made earlier for the same component list, values and relation: a Builder
+	// is documented as a re-usable object
+	key := fmt.Sprint(op.Add, "|", op.Vals, "|", op.Rel != nil)
+	if op.Rel != nil {
+		key += fmt.Sprint(*op.Rel)
+	}
+	if s.step%3 != 0 && op.Ill == "" {
+		if b, ok := s.builders[key]; ok {
+			s.Cov.N["builder_reused"]++
+			return b
+		}
+	}
+	b := s.newBuilder(op)
+	if op.Ill == "" {
+		if s.builders == nil || len(s.builders) > 40 {
+			s.builders = map[string]*ecs.Builder{}
+		}
+		s.builders[key] = b
+	}
+	return b
+}
+
+func (s *Sess) newBuilder(op *Op) *ecs.Builder {
 	var b *ecs.Builder
 	if op.Vals != nil {
 		b = ecs.NewBuilderWith(s.W, s.comps(op.Add, op.Vals)...)
